@@ -5,6 +5,8 @@ import (
 	"encoding/json"
 	"fmt"
 	"io"
+	"os"
+	"path/filepath"
 	"strings"
 	"time"
 
@@ -40,7 +42,7 @@ func (c17) Batches(tier string, seed uint64) []core.Batch {
 func (c17) Mandatory(tier string) []string {
 	return []string{"full:entries>=2", "full:no-final-newline", "full:leading-blank-lines", "full:multi-distribution", "full:multi-option", "full:zone-half-hour", "full:zone-negative",
 		"prefix:between-entries", "prefix:in-header", "prefix:in-body", "prefix:in-trailer", "prefix:missing-only-final-newline", "prefix:empty", "outcome:error", "outcome:entries",
-		"malformed:version", "malformed:no-date", "malformed:month", "malformed:column0-body", "malformed:no-trailer", "malformed:indented-header", "full:line>=4096-bytes", "path:Parse", "path:ParseOne", "path:ParseOne-16-byte-reader", "full:entry-without-options"}
+		"malformed:version", "malformed:no-date", "malformed:month", "malformed:column0-body", "malformed:no-trailer", "malformed:indented-header", "full:line>=4096-bytes", "path:Parse", "path:ParseOne", "path:ParseOne-16-byte-reader", "path:ParseFile", "path:Parse-onebyte-reader", "path:Parse-data+EOF-reader", "full:entry-without-options"}
 }
 
 type clEntry struct {
@@ -231,7 +233,7 @@ func parseOneLoopSized(text string, size int) ([]changelog.ChangelogEntry, error
 
 func (p c17) full(c *core.C, d clDoc) {
 	text, _, _ := d.render()
-	for _, path := range []string{"Parse", "ParseOne", "ParseOne-16-byte-reader", "ParseOne-200-byte-reader", "ParseOne-64KiB-reader"} {
+	for _, path := range []string{"Parse", "Parse-onebyte-reader", "Parse-data+EOF-reader", "Parse-chunk-reader", "ParseFile", "ParseOne", "ParseOne-16-byte-reader", "ParseOne-200-byte-reader", "ParseOne-64KiB-reader"} {
 		var got []changelog.ChangelogEntry
 		var err error
 		switch path {
@@ -239,6 +241,31 @@ func (p c17) full(c *core.C, d clDoc) {
 			var g changelog.ChangelogEntries
 			g, err = changelog.Parse(strings.NewReader(text))
 			got = g
+		case "Parse-onebyte-reader", "Parse-data+EOF-reader", "Parse-chunk-reader":
+			kind := map[string]string{"Parse-onebyte-reader": "onebyte", "Parse-data+EOF-reader": "data+EOF", "Parse-chunk-reader": "chunks"}[path]
+			var g changelog.ChangelogEntries
+			g, err = changelog.Parse(mkReader(kind, text, uint64(len(text))))
+			got = g
+		case "ParseFile":
+			dir := os.Getenv("VERIF_WORK_RUN")
+			if dir == "" {
+				continue
+			}
+			fp := filepath.Join(dir, fmt.Sprintf("c17-%d.changelog", os.Getpid()))
+			if os.WriteFile(fp, []byte(text), 0o644) != nil {
+				continue
+			}
+			var g changelog.ChangelogEntries
+			g, err = changelog.ParseFile(fp)
+			got = g
+			if one, oerr := changelog.ParseFileOne(fp); len(d.Entries) > 0 {
+				if oerr != nil || one == nil {
+					c.Failf("ParseFileOne failed on a well-formed changelog: %v", oerr)
+				} else if diff := diffEntry(*one, d.Entries[0]); diff != "" {
+					c.Failf("ParseFileOne: %s", diff)
+				}
+			}
+			os.Remove(fp)
 		case "ParseOne":
 			got, err = parseOneLoop(text)
 		case "ParseOne-16-byte-reader":
